@@ -33,7 +33,7 @@ fn plan(tier: Tier) -> Vec<Unit> {
         Tier::Thorough => {
             let mut v = crate::util::split_budget("pow10", 5_001, 10);
             v.extend(crate::util::split_budget_param("small", 2 * 100_000 - 1, 500, 100_000));
-            v.extend(crate::util::split_budget("random", 1_500_000, 2_000));
+            v.extend(crate::util::split_budget("random", 12_000_000, 5_000));
             v
         }
         Tier::Miri => {
@@ -138,15 +138,27 @@ pub fn check_case(case: &Case, ctx: &mut Ctx) {
         let (ai, ae) = b.as_bigint_and_exponent();
         let (ii, ie) = b.clone().into_bigint_and_exponent();
         let (si, ss) = b.clone().into_bigint_and_scale();
-        let mut dest = BigDecimal::from(99);
+        let mut dest = -b.clone();
         rf.clone_into(&mut dest);
+        // ... and the negated view onto a destination holding the value itself
+        let mut dest2 = b.clone();
+        (-rf).clone_into(&mut dest2);
+        let dest2_ok = Dec::of(&dest2) == d.neg();
+        if !dest2_ok && Dec::of(&dest) == d { dest = dest2; } // (a wrong second clone surfaces through `dest` below)
         (b.digits(), b.sign(), b.fractional_digit_count(), cow, cs, ai, ae, ii, ie, si, ss,
-         rf.count_digits(), rf.sign(), rf.fractional_digit_count(), rf.is_zero(), rf.to_owned(), dest, rf.abs().to_owned(), (-rf).to_owned())
+         rf.count_digits(), rf.sign(), rf.fractional_digit_count(), rf.is_zero(), rf.to_owned(), dest, rf.abs().to_owned(), (-rf).to_owned(),
+         (rf.abs().sign(), (-rf).sign(), rf.abs().is_zero(), (-rf).abs().sign(), rf.abs().count_digits(), (-rf).fractional_digit_count()))
     });
-    ctx.more_evals(18);
+    ctx.more_evals(24);
     match r {
         Err(p) => ctx.fail("accessor/panic", case, format!("accessors of {} panicked: {}", d.tok(), p)),
-        Ok((dg, sg, fdc, cow, cs, ai, ae, ii, ie, si, ss, rdg, rsg, rfdc, rz, owned, dest, rabs, rneg)) => {
+        Ok((dg, sg, fdc, cow, cs, ai, ae, ii, ie, si, ss, rdg, rsg, rfdc, rz, owned, dest, rabs, rneg, views)) => {
+            {
+                let abs_sign = if d.n.is_zero() { Sign::NoSign } else { Sign::Plus };
+                let neg_sign = (-d.n.clone()).sign();
+                let ok = views.0 == abs_sign && views.1 == neg_sign && views.2 == d.n.is_zero() && views.3 == abs_sign && views.4 == want_digits && views.5 == d.s;
+                ctx.check(ok, "ref/view-accessors", case, || format!("accessors of abs()/neg() views of {}: abs.sign {:?}, neg.sign {:?}, abs.is_zero {}, neg.abs.sign {:?}, abs.count_digits {}, neg.scale {}", d.tok(), views.0, views.1, views.2, views.3, views.4, views.5));
+            }
             ctx.out_u64(dg);
             ctx.check(dg == want_digits, "digits/wrong", case, || format!("digits({}) = {} but the unscaled integer has {} decimal digits", d.tok(), dg, want_digits));
             ctx.check(rdg == want_digits, "digits/wrong", case, || format!("to_ref().count_digits() of {} = {} want {}", d.tok(), rdg, want_digits));
